@@ -12,7 +12,42 @@ K_VARINT = ["k_encode_varuint_contract", "k_encode_size_contract", "k_encode_var
 K_FIXED = ["k_fixed_u8", "k_fixed_i8", "k_fixed_u16", "k_fixed_i16", "k_fixed_u32", "k_fixed_i32", "k_fixed_u64",
            "k_fixed_i64", "k_fixed_f32", "k_fixed_f64", "k_bool_contract"]
 
+CODEC_TRUSTED = [
+    "R5 shim_as_array / R6 shim_copy_nonoverlapping: precondition = safety condition of the unsafe call (Kani kb_slice_* run the unmodified unsafe code under pointer checks)",
+    "R13 ShimLe::{shim_to_le_bytes, shim_from_le_bytes}: std to_le_bytes/from_le_bytes are the little-endian layout of the bit pattern (Kani k_fixed_* compare the real encoder/decoder with a shift/mask oracle for every value)",
+    "encode_varint / encode_varuint / decode_varint / decode_varuint bodies: external_body in Verus, contract discharged by Kani k_encode_* / k_decode_*_any_bytes (full domain); wire_ref.rs == specs/wire.rs proved in Verus (unit wire_lemmas)",
+    "spec_into_i64/u64, spec_try_from_int/nat axioms: std integer widening is value preserving, narrowing TryFrom is a range check",
+    "Vec::try_reserve_exact (capacity exactly len+additional when it grows -- std RawVec behaviour, not promised by the docs), spare_capacity_mut/set_len shims, String::from_utf8, HashMap::try_reserve: assumed std contracts",
+    "vstd's HashMap/BTreeMap/Vec/str specifications (obeys_key_model, key_obeys_cmp_spec, encode_utf8/valid_utf8)",
+    "axiom: a slice's length fits in usize",
+]
+
 PROPS = {
+    "C10": dict(
+        units=["codec_wire", "wire_lemmas"],
+        kani_quick=K_VARINT + K_FIXED,
+        kani_thorough=["kb_dict_roundtrip", "kb_string_roundtrip"],
+        claim="Every EncodeInto / DecodeFrom implementation of slice-codec for bool, fixed-width numbers, floats, "
+              "variable-width integers, sizes, strings and sequences is under contract against the wire-format spec "
+              "(specs/wire.rs, written from the property): encoders append exactly enc(value); decoders accept only "
+              "is_dec(bytes, value, consumed); round trip dec(enc(x)++tail) is a lemma over the spec. Bit-level leaf "
+              "functions are discharged by complete Kani harnesses over the full machine domain.",
+        trusted=CODEC_TRUSTED,
+        not_claimed=["dictionary ENCODING (for-loop over a map: Verus' ghost-iterator invariant fails) -- bounded Kani stand-in only, so the dictionary round trip is bounded",
+                     "tokio/bytes feature code (not compiled by slicec)"],
+    ),
+    "C11": dict(
+        units=["codec_wire", "codec_buffer", "codec_error"],
+        kani_quick=["k_decode_varuint_u32_any_bytes", "k_decode_varuint_u64_any_bytes", "k_decode_varuint_usize_any_bytes",
+                    "k_decode_varuint_i32_any_bytes", "k_decode_varint_i32_any_bytes", "k_decode_varint_i64_any_bytes", "k_bool_contract"],
+        kani_thorough=["kb_decode_string_any_bytes", "kb_decode_vec_u8_any_bytes", "kb_decode_hashmap_any_bytes", "kb_skip_tagged_any_bytes"],
+        claim="Every decode function is verified with no precondition other than the source's representation invariant, "
+              "so for ALL byte strings: data unchanged, cursor moves forward inside the buffer (no over-read: every "
+              "indexing/copy obligation proved), no reachable panic, strict bool/UTF-8/range/duplicate-key rejection, "
+              "allocation bounded by the remaining input (String; Vec/HashMap are known findings), every error renders.",
+        trusted=CODEC_TRUSTED + ["global allocator behaviour on a failed reservation", "wall-clock / RSS are not contract-expressible: the resource clause bounds requested bytes and loop iterations"],
+        not_claimed=["definition_types.rs DecodeFrom for GeneratedFile/Diagnostic is carried by C08's unit", "handle_generator_response (process I/O region)"],
+    ),
     "C12": dict(
         units=["codec_buffer"],
         kani_quick=[],
